@@ -10,6 +10,7 @@ from pgmpy.base import UndirectedGraph
 from pgmpy.factors import factor_product
 from pgmpy.factors.discrete import DiscreteFactor
 from pgmpy.models.MarkovNetwork import MarkovNetwork
+from pgmpy.utils import compat_fns
 
 
 class FactorGraph(UndirectedGraph):
@@ -433,7 +434,7 @@ class FactorGraph(UndirectedGraph):
         if set(factor.scope()) != set(self.get_variable_nodes()):
             raise ValueError("DiscreteFactor for all the random variables not defined.")
 
-        return np.sum(factor.values)
+        return compat_fns.sum(factor.values)
 
     def copy(self):
         """
